@@ -270,6 +270,10 @@ func init() {
 		}
 		return ""
 	}
+	{ // concurrent callers / readers (concurrent.go), after the sequential phases
+		conc, run := concPhase(p, concAddresses), p.Run
+		p.Run = func(c *mon.Ctx) { run(c); conc(c) }
+	}
 	mon.Register(p)
 }
 
